@@ -61,6 +61,7 @@ var commonAssumptions = []string{
 
 func init() {
 	reg("C12", "exploration", false, 160000, 25, 6000000, 240, 3)
+	reg("C09", "exploration", true, 40000, 40, 1500000, 300, 3)
 	reg("C04", "exploration", false, 100000, 30, 4000000, 240, 3)
 }
 
@@ -88,6 +89,7 @@ type replayFile struct {
 	Config    []string        `json:"config_and_program"`
 	Trace     string          `json:"trace"`
 	Race      bool            `json:"race_binary"`
+	SeedOnly  bool            `json:"seed_only,omitempty"`
 	Repo      string          `json:"repo_state,omitempty"`
 	Original  json.RawMessage `json:"original_tape,omitempty"`
 }
@@ -396,6 +398,14 @@ func realMain(id string, pc propCfg, workDir string) int {
 	if wall > 0 {
 		runsPerHour = float64(total.Runs) / wall * 3600
 	}
+	if len(total.Samples) == 0 {
+		for _, v := range viols {
+			total.Samples = append(total.Samples, map[string]any{"run_index": v.RunIndex, "seed": v.RunSeed, "violating_case": v.Config, "signature": v.Signature})
+		}
+	}
+	if total.Samples == nil {
+		total.Samples = []any{}
+	}
 	meta := propMeta(bin, id)
 	ev := map[string]any{
 		"property_id": id,
@@ -488,12 +498,75 @@ func propMeta(bin, id string) meta {
 func replayOnce(bin, id, path, workDir string) (string, bool) {
 	cmd := exec.Command(bin, "-test.run", "TestWorker", "-test.timeout", "120s")
 	raceLog := filepath.Join(workDir, fmt.Sprintf("racereplay-%d", time.Now().UnixNano()))
-	cmd.Env = append(os.Environ(), "ZSIM_PROP="+id, "ZSIM_REPLAY="+path, "GOMAXPROCS=1", "ZSIM_RACELOG="+raceLog, "GORACE=log_path="+raceLog+" halt_on_error=0")
+	cmd.Env = append(os.Environ(), "ZSIM_PROP="+id, "ZSIM_REPLAY="+path, "GOMAXPROCS=1", "GORACE=log_path="+raceLog+" halt_on_error=1 exitcode=66")
 	var out bytes.Buffer
 	cmd.Stdout, cmd.Stderr = &out, &out
-	cmd.Run()
+	err := cmd.Run()
 	s := out.String()
+	if ee, ok := err.(*exec.ExitError); ok && ee.ExitCode() == 66 {
+		rep := readRaceLog(raceLog, cmd.Process.Pid)
+		sig := "data race: " + raceSig(rep)
+		var rf replayFile
+		if b, e := os.ReadFile(path); e == nil {
+			json.Unmarshal(b, &rf)
+		}
+		s += "REPLAY-RESULT " + sig + "\n" + rep
+		if sig == rf.Signature {
+			s += "REPLAY-MATCH\n"
+			return s, true
+		}
+		return s, false
+	}
 	return s, strings.Contains(s, "REPLAY-MATCH")
+}
+
+func readRaceLog(prefix string, pid int) string {
+	b, err := os.ReadFile(fmt.Sprintf("%s.%d", prefix, pid))
+	if err != nil {
+		return ""
+	}
+	s := string(b)
+	if len(s) > 8000 {
+		s = s[:8000]
+	}
+	return s
+}
+
+// raceSig normalises a race report to the zap function at the top of each of
+// the two conflicting stacks.
+func raceSig(rep string) string {
+	var tops []string
+	lines := strings.Split(rep, "\n")
+	for i := 0; i < len(lines); i++ {
+		l := lines[i]
+		if strings.HasPrefix(l, "Write at ") || strings.HasPrefix(l, "Read at ") || strings.HasPrefix(l, "Previous write at ") || strings.HasPrefix(l, "Previous read at ") {
+			kind := strings.Fields(l)[0]
+			if kind == "Previous" {
+				kind = "previous " + strings.Fields(l)[1]
+			}
+			fn := ""
+			for j := i + 1; j < len(lines) && strings.TrimSpace(lines[j]) != ""; j++ {
+				f := strings.TrimSpace(lines[j])
+				if strings.HasPrefix(f, "go.uber.org/zap") {
+					fn = f
+					break
+				}
+			}
+			if fn == "" && i+1 < len(lines) {
+				fn = strings.TrimSpace(lines[i+1])
+			}
+			if k := strings.Index(fn, "("); k > 0 && !strings.HasPrefix(fn[k:], "(*") {
+				fn = fn[:k]
+			} else if k := strings.LastIndex(fn, "("); k > 0 {
+				fn = fn[:k]
+			}
+			tops = append(tops, strings.ToLower(kind)+" in "+fn)
+		}
+		if len(tops) == 2 {
+			break
+		}
+	}
+	return strings.Join(tops, " / ")
 }
 
 // runBase runs nw workers over run indices [0, tc.Runs) of one base seed
@@ -526,8 +599,11 @@ func runBase(bin, id, tier string, base uint64, tc tierCfg, nw int, workDir stri
 					"ZSIM_STRIDE="+strconv.Itoa(nw),
 					"ZSIM_BUDGET_MS="+strconv.FormatInt(remain.Milliseconds(), 10),
 					"ZSIM_OUT="+outPath, "GOMAXPROCS=1",
-					"ZSIM_RACELOG="+raceLog, "GORACE=log_path="+raceLog+" halt_on_error=0",
 				)
+				progPath := outPath + ".progress"
+				if race {
+					cmd.Env = append(cmd.Env, "ZSIM_PROGRESS="+progPath, "GORACE=log_path="+raceLog+" halt_on_error=1 exitcode=66")
+				}
 				var stderr bytes.Buffer
 				cmd.Stdout, cmd.Stderr = &stderr, &stderr
 				if err := cmd.Start(); err != nil {
@@ -548,6 +624,33 @@ func runBase(bin, id, tier string, base uint64, tc tierCfg, nw int, workDir stri
 					infra = fmt.Sprintf("watchdog: worker %d made no progress within its budget + 90s and was killed (a hang in the simulated code or the harness; not a verdict)", k)
 					mu.Unlock()
 					return
+				}
+				if ee, ok := werr.(*exec.ExitError); ok && race && ee.ExitCode() == 66 {
+					// the race detector halted the worker inside the announced run
+					pb, _ := os.ReadFile(progPath)
+					if len(pb) < 16 {
+						mu.Lock()
+						infra = "race detector halted a worker before any run was announced:\n" + readRaceLog(raceLog, cmd.Process.Pid)
+						mu.Unlock()
+						return
+					}
+					idx := int64(binary.LittleEndian.Uint64(pb))
+					rseed := binary.LittleEndian.Uint64(pb[8:])
+					rep := readRaceLog(raceLog, cmd.Process.Pid)
+					var o workerOut
+					if b, e := os.ReadFile(outPath); e == nil {
+						json.Unmarshal(b, &o) // statistics flushed before the halt
+					}
+					o.Violations = append(o.Violations, replayFile{Property: id, Tier: tier, BaseSeed: base, RunIndex: idx, RunSeed: rseed, Signature: "data race: " + raceSig(rep), Detail: rep, Race: true, SeedOnly: true})
+					mu.Lock()
+					outs = append(outs, &o)
+					mu.Unlock()
+					violations++
+					if violations >= 3 {
+						return
+					}
+					from = idx + int64(nw)
+					continue
 				}
 				b, rerr := os.ReadFile(outPath)
 				if rerr != nil {
